@@ -21,7 +21,8 @@ RULE = ("scenarios = one random work tree (files, nested directories, symlinks i
         "part: get_relative_dosym_target on random absolute (target, link name) pairs, judged by the resolution law on "
         "strings and on a real directory tree.  Third part (every run): directed multi-step scenarios in which a later "
         "install helper (doins, dobin, dosbin, dolib.so/.a, doexe, dodoc, doinitd, doconfd, doinfo, doins -r twice, doins of "
-        "symlinks twice, files over the links of an installed tree) targets an image path that holds a symlink (dangling "
+        "symlinks twice, files over the links of an installed tree, another file over one name of a dohard pair, a source "
+        "symlink over an installed regular file) targets an image path that holds a symlink or a (hard-linked) regular file (dangling "
         "or live, relative, absolute image-style, absolute into a watched scratch directory next to the image): the "
         "destination must become the requested file/symlink with the requested mode and nothing else may appear in "
         "or outside the image.  Non-trivial: the request creates at least one image entry or is a "
@@ -32,9 +33,10 @@ ASSUMPTIONS = [
     "vt/gen/c32_harness.render); bash-side gates (banned helpers, domo/into, newins) are not reachable over the fake channel",
     "placement model vt/ref/c33_placement.py transcribes PMS 12.3.3; where PMS is silent (symlink operands outside "
     "doins EAPI>=4, multi-character man sections, dohtml directory without -r, dohtml -x, zero operands, empty "
-    "directories; installing over an existing directory, a directory over a non-directory, a symlink over a regular "
-    "file, a symlink-to-directory source over anything, dosym over an existing name) nothing is judged; a regular file "
-    "or a copied symlink installed over an existing image symlink replaces it (install(1) semantics, never followed)",
+    "directories; installing over an existing directory, a directory over a non-directory, a symlink-to-directory "
+    "source over anything, dosym over an existing name) nothing is judged; a regular file or a copied symlink installed "
+    "over an existing image symlink or regular file replaces it (install(1) semantics: never followed, new inode, other "
+    "hard links of the old file keep their content)",
     "umask 022, process runs as root (owner options use numeric ids)",
     "option strings that force the external `install` fallback are exercised by C32, not here",
     "real-daemon runs of the same requests are left to the daemon harness owner",
@@ -44,7 +46,8 @@ TIMEOUT = {"quick": 240, "thorough": 1100}
 MIN_EVALS = 3000
 REQUIRED_COUNTERS = ("requests_judged", "verdict:ok", "verdict:reject", "relpath_pairs", "relpath_physical",
                      "overwrites_symlink", "overwrites_symlink:file-over-dangling-relative-link",
-                     "overwrites_symlink:file-over-dangling-absolute-link", "overwrites_symlink:link-over-dangling-relative-link")
+                     "overwrites_symlink:file-over-dangling-absolute-link", "overwrites_symlink:link-over-dangling-relative-link",
+                     "overwrites_hardlinked_file", "overwrites_regular:link")
 
 P = hx.PKG_ID
 QUIRKS = ("man-lang-regex", "html-no-filter-in-dirs", "default-insopts-lost")
@@ -107,6 +110,15 @@ def judge(ctx, sc, history, idx, rec):
     if exp["entries"]:
         ctx.nontrivial(key)
     ctx.count("rule:" + exp["rule"])
+    for fp in exp.get("replaces_files", ()):
+        old = rec.pre[fp]
+        ctx.count("overwrites_regular:" + exp["entries"][fp]["type"])
+        if old["nlink"] > 1:
+            # the other names of the old inode must keep the old content (checked by the comparison: unrelated entries)
+            ctx.count("overwrites_hardlinked_file")
+            ctx.nontrivial(("over-hardlinked", h, fp, sc.eapi, tuple(req["args"])))
+        elif exp["entries"][fp]["type"] == "link":
+            ctx.nontrivial(("link-over-file", h, fp, sc.eapi, tuple(req["args"])))
     for lp in exp.get("replaces_links", ()):
         old = rec.pre[lp]
         ctx.count("overwrites_symlink")
@@ -309,9 +321,10 @@ def run(ctx):
         ctx.note("chown not permitted here: -o/-g install options are not generated")
     run_relpath(ctx, ctx.budget(6000, 30000), ctx.budget(300, 1500))
     # directed: a later install helper hits an image path that holds a symlink (dangling/live, relative/absolute)
-    for i in range(ctx.budget(14, 160)):
+    for i in range(ctx.budget(22, 220)):
         want = gen.OVER_VARIANTS[(i + ctx.shard) % len(gen.OVER_VARIANTS)]
-        eapi = rng.choice(gen.EAPIS if want == "dosym-then-file" else gen.EAPIS[4:])
+        eapi = rng.choice(gen.EAPIS if want == "dosym-then-file" else
+                          gen.EAPIS[:4] if want == "hardlink-then-file" else gen.EAPIS[4:])
         tree = gen.gen_tree(rng)
         variant, script = gen.overwrite_script(rng, eapi, want)
         ctx.count("directed:" + variant.split(":")[0])
